@@ -467,6 +467,87 @@ def feeds(emu, tree):
     return out
 
 
+ONESHOT_HELPERS = {"oneshot", "_get_kinfo_proc", "_get_pidtaskinfo", "_proc_basic_info", "_proc_info"}
+
+
+def _is_record_expr(n, recvars):
+    """`self.<one-shot helper>()`, `cext.proc_*oneshot*/proc_info/proc_basic_info(...)`, or a variable bound to one"""
+    if isinstance(n, ast.Name):
+        return n.id in recvars
+    if isinstance(n, ast.Call):
+        d = extract.dotted(n.func)
+        if d.startswith("self.") and d.split(".", 1)[1] in ONESHOT_HELPERS:
+            return True
+        if d in ("cext.proc_oneshot_info", "cext.proc_kinfo_oneshot", "cext.proc_pidtaskinfo_oneshot",
+                 "cext.proc_basic_info", "cext.proc_info"):
+            return True
+    return False
+
+
+def unnamed_record_refs(emu, tree):
+    """[(method, expression)]: every read of a native one-shot record, on ANY path of ANY function of the module
+    (main path, except-handler fall-backs, comprehensions, module-level helpers such as is_zombie), that is NOT of
+    the shape `<record>[<map>['<slot name>']]` — and every use of a slot map that is not such a read. Empty means:
+    all record reads go through a named slot, i.e. they are all rows of `feeds` (or probe reads of `status`)."""
+    maps = {n for n, _ in slot_maps(emu)}
+    out = []
+
+    def scan(fn, label):
+        recvars = set()
+        for n in ast.walk(fn):
+            if isinstance(n, ast.Assign) and len(n.targets) == 1 and isinstance(n.targets[0], ast.Name) \
+                    and _is_record_expr(n.value, set()):
+                recvars.add(n.targets[0].id)
+        good_inner = set()
+        for n in ast.walk(fn):
+            if isinstance(n, ast.Subscript) and _is_record_expr(n.value, recvars):
+                if _slotref(n, maps):
+                    good_inner.add(id(n.slice))
+                else:
+                    out.append((label, extract.unparse(n)[:80]))
+            # a record used in any way other than being subscripted, returned, asserted on or bound
+        for n in ast.walk(fn):
+            if isinstance(n, ast.Subscript) and isinstance(n.value, ast.Name) and n.value.id in maps \
+                    and id(n) not in good_inner:
+                out.append((label, extract.unparse(n)[:80]))
+            if isinstance(n, ast.Starred) and _is_record_expr(n.value, recvars):
+                out.append((label, extract.unparse(n)[:80]))
+            if isinstance(n, (ast.For, ast.comprehension)) and _is_record_expr(n.iter, recvars):
+                out.append((label, "for … in " + extract.unparse(n.iter)[:60]))
+    for name, defs in sorted(class_functions(tree).items()):
+        for d in defs:
+            if d.name == name:
+                scan(d, name)
+    for st in tree.body:
+        if isinstance(st, ast.FunctionDef):
+            scan(st, "<module>." + st.name)
+    return sorted(set(out))
+
+
+def fallback_feeds(emu, tree):
+    """[(method, 'map.slot')] for every named slot read that sits lexically inside an `except` handler of a
+    method of class Process: the alternative ("slower fallback") paths"""
+    maps = {n for n, _ in slot_maps(emu)}
+    present = set(vars(emu.mod.Process))
+    out = []
+    for name, defs in sorted(class_functions(tree).items()):
+        if name not in present:
+            continue
+        for d in defs:
+            if d.name != name:
+                continue
+            refs = []
+            for t in ast.walk(d):
+                if isinstance(t, ast.ExceptHandler):
+                    for n in ast.walk(t):
+                        r = _slotref(n, maps)
+                        if r:
+                            refs.append((n.lineno, n.col_offset, r))
+            for _, _, r in sorted(set(refs)):
+                out.append((name, r))
+    return out
+
+
 def returns_ntuple(emu, tree):
     """(method, namedtuple constructor called in a `return`)"""
     nts = _ntuple_classes(emu)
